@@ -262,6 +262,15 @@ func applyLayer(nd *Node, l Layer) (err error) {
 		} else {
 			nd.S = r
 		}
+	case "errclose":
+		// a transport whose Close reports an error (after really closing): layers above must still shut down
+		ec := &errClose{Swarm: nd.S}
+		if nd.A != nil {
+			ea := errCloseAsk{errClose: ec, AskBidi: nd.A}
+			nd.S, nd.A = ea, ea
+		} else {
+			nd.S = ec
+		}
 	case "frag":
 		nd.S = fragswarm.New[Addr](nd.S, l.MTU)
 		nd.A = nil
@@ -483,4 +492,16 @@ func OpenMux(kind string, below Swarm, ask bool, ids []string) (out []Swarm, err
 		return nil, fmt.Errorf("unknown mux kind %q", kind)
 	}
 	return out, nil
+}
+
+type errClose struct{ Swarm }
+
+func (e *errClose) Close() error {
+	e.Swarm.Close()
+	return fmt.Errorf("transport reported an error while closing")
+}
+
+type errCloseAsk struct {
+	*errClose
+	AskBidi
 }
